@@ -179,4 +179,20 @@ def retisSwapZeroInproc (step : Cfg → Cfg) (opf : Cfg → Int) (vf : Cfg → O
     (e0 e1 : Ens) (old0 old1 : List Frame) (xi : Rat) : Except Err Result :=
   retisSwapZeroDetV step opf vf (inprocSteps sub (e1.maxlen - 1) ase) e0 e1 old0 old1 xi
 
+/-! ### 6. which configurations reach `quantis_swap_zero` (the precondition "QuanTIS runs without λ₋₁")
+
+`quantis_swap_zero` has no λ₋₁ early reject (`Infretis.C11.quantis_lm1_left_not_rejected_counterexample`); the
+combination is excluded before any move runs:
+  setup.py:242      `if quantis and lambda_minus_one is not False: raise TOMLConfigError("Cannot run quantis …")`
+                    (`check_config`, called by `setup_config`; `False` = the key is absent; fix b3eda5b: the test used
+                    to be the truthiness of `lambda_minus_one`, which let 0.0 through)
+  repex.py:1150-54  `"start_cond": ["L", "R"] if lambda_minus_one is not False and i == 0 else ("R" if i == 0 else "L")`
+C18 owns `check_config` (Model/Config.lean); only this one line is mirrored here. -/
+
+/-- setup.py:242; `lm1 = none` stands for `False` (no λ₋₁) -/
+def configRejectsQuantisLm1 (quantis : Bool) (lm1 : Option Rat) : Bool := quantis && lm1.isSome
+
+/-- repex.py:1150-1154 for ensemble 0: membership of 'L' / 'R' in `start_cond` of [0-] -/
+def zeroMinusStartCond (lm1 : Option Rat) : Bool × Bool := if lm1.isSome then (true, true) else (false, true)
+
 end Infretis.ZeroSwap
